@@ -32,6 +32,25 @@ CLAIMED = {
         'spelling function (harness/parsecheck.py spell) and the abstraction '
         'of code tokens to spec tokens (c01_random.abstract_tok).',
         'DESIGN.md 4/C01'),
+    'C05': (
+        'TLC model checking of XlArray.tla (lifting under broadcasting, '
+        'fitting, arity independence over all shape combinations <= 3x3) + '
+        'replay of every case through Cell/Ranges with literals and ranges + '
+        'TLC trace validation (XlArrayTrace.tla) of the lifting law on the '
+        'code\'s own scalar results',
+        'TLC checks ShapeOK, Pointwise, FitShape, FitIdempotent, FitScalar and '
+        'ArityIndependent for every operator/shape/shape case (8 shapes up to '
+        '3x3, mixed-kind elements incl. errors), every fit of every shape into '
+        'every destination up to 3x3 and CONCATENATE with 1..40 arguments, and '
+        'emits every case; each is replayed on the real code with array '
+        'literals and with referenced ranges (Cell over a destination range, '
+        'Ranges.push for fitting). For 20 further element-wise functions with '
+        'random array arguments the recorded result must be the lifting - by '
+        'the spec\'s broadcasting rule - of the code\'s own scalar results '
+        '(XlArrayTrace.tla).',
+        'Trusted: TLC; XlOpsDef.tla for the scalar operators; array-literal '
+        'and range spelling in the harness.',
+        'DESIGN.md 4/C05'),
     'C06': (
         'TLC model checking of Rects.tla (transcription of ranges.py against '
         'cell-set definitions, all operand combinations of the bounded grid) + '
